@@ -16,8 +16,49 @@ import (
 	"golang.org/x/tools/go/ssa"
 )
 
+// houdiniState: candidate invariants "0 <= x" for the signed integer phis of
+// every loop header of one function; dead candidates were refuted in an
+// earlier round. Re-inferred from scratch on every run.
 type houdiniState struct {
-	cands map[int][]string
+	dead  map[string]bool
+	seen  map[string]bool
+	round int
+}
+
+func houdiniKey(li *loopInfo, phi *ssa.Phi) string {
+	return fmt.Sprintf("%d:%s", li.ordinal, phi.Name())
+}
+
+func (eng *Engine) houdiniCands(fr *Frame, li *loopInfo, phiEnv map[*ssa.Phi]string) (names []string, terms []string) {
+	hs := eng.houdini[fr.vc.unit]
+	if hs == nil || fr.parent != nil {
+		return nil, nil
+	}
+	vc := fr.vc
+	for _, in := range li.header.Instrs {
+		phi, ok := in.(*ssa.Phi)
+		if !ok {
+			break
+		}
+		_, signed, isInt := intInfo(phi.Type())
+		if !isInt || !signed || phi.Comment == "rangeindex" {
+			continue
+		}
+		k := houdiniKey(li, phi)
+		hs.seen[k] = true
+		if hs.dead[k] {
+			continue
+		}
+		var t string
+		if v, ok := phiEnv[phi]; ok {
+			t = v
+		} else {
+			t = fr.val(phi)
+		}
+		names = append(names, k)
+		terms = append(terms, vc.leInt(vc.intLitN(0, phi.Type()), t))
+	}
+	return
 }
 
 func (eng *Engine) autoInvs(fr *Frame, li *loopInfo, phiEnv map[*ssa.Phi]string) []string {
@@ -73,7 +114,8 @@ func (eng *Engine) frameInvs(fr *Frame, li *loopInfo, st *State) []string {
 }
 
 func (eng *Engine) inferredInv(fr *Frame, li *loopInfo, st *State, phiEnv map[*ssa.Phi]string) []string {
-	return append(eng.autoInvs(fr, li, phiEnv), eng.frameInvs(fr, li, st)...)
+	_, hc := eng.houdiniCands(fr, li, phiEnv)
+	return append(append(eng.autoInvs(fr, li, phiEnv), eng.frameInvs(fr, li, st)...), hc...)
 }
 
 func (eng *Engine) inferredCheck(fr *Frame, li *loopInfo, st *State, g string, env map[*ssa.Phi]string, phase string) {
@@ -84,6 +126,15 @@ func (eng *Engine) inferredCheck(fr *Frame, li *loopInfo, st *State, g string, e
 		}
 		fr.vc.addObl(&Obligation{Name: fmt.Sprintf("%s#loop%d.frameinv.%d.%s%s", fr.vc.unit, li.ordinal, k, phase, suffix), Kind: "inv." + phase,
 			Props: fr.props(), Guard: g, Goal: t, Src: "frame condition as loop invariant (automatic)", Pos: fr.vc.eng.pos(token.NoPos)})
+	}
+	hn, ht := eng.houdiniCands(fr, li, env)
+	for i, t := range ht {
+		suffix := ""
+		if phase == "keep" {
+			suffix = fmt.Sprintf(".b%d", fr.top().curBlk)
+		}
+		fr.vc.addObl(&Obligation{Name: fmt.Sprintf("%s#loop%d.inferred.%s.%s%s", fr.vc.unit, li.ordinal, strings.ReplaceAll(hn[i], ":", "_"), phase, suffix), Kind: "houdini." + phase,
+			Props: fr.props(), Guard: g, Goal: t, Src: "inferred invariant 0 <= " + hn[i] + " (Houdini, re-inferred on every run)", Pos: fr.vc.eng.pos(token.NoPos), hkey: hn[i]})
 	}
 	for k, t := range eng.autoInvs(fr, li, env) {
 		suffix := ""
@@ -96,5 +147,41 @@ func (eng *Engine) inferredCheck(fr *Frame, li *loopInfo, st *State, g string, e
 }
 
 func (eng *Engine) inferAndTranslate(unit, mode string, fn *ssa.Function, fc *FuncContract) (*VC, *Frame) {
-	return eng.translate(unit, mode, fn, fc, false)
+	if !fc.Houdini || eng.solvers == nil {
+		return eng.translate(unit, mode, fn, fc, false)
+	}
+	hs := &houdiniState{dead: map[string]bool{}, seen: map[string]bool{}}
+	eng.houdini[unit] = hs
+	for {
+		hs.round++
+		vc, fr := eng.translate(unit, mode, fn, fc, false)
+		var cand []*Obligation
+		for _, o := range vc.obls {
+			if strings.HasPrefix(o.Kind, "houdini.") {
+				cand = append(cand, o)
+			}
+		}
+		if len(cand) == 0 || hs.round > 8 {
+			vc.note("Houdini inference: %d round(s), %d of %d candidate invariants (0 <= x) survive", hs.round, len(hs.seen)-len(hs.dead), len(hs.seen))
+			return vc, fr
+		}
+		for _, o := range cand {
+			o.quickOnly = true
+		}
+		eng.solvers.discharge(cand, eng.workers)
+		for _, o := range cand {
+			o.quickOnly = false
+		}
+		removed := 0
+		for _, o := range cand {
+			if o.Status != "discharged" && !hs.dead[o.hkey] {
+				hs.dead[o.hkey] = true
+				removed++
+			}
+		}
+		if removed == 0 {
+			vc.note("Houdini inference: %d round(s), %d of %d candidate invariants (0 <= x) survive", hs.round, len(hs.seen)-len(hs.dead), len(hs.seen))
+			return vc, fr
+		}
+	}
 }
